@@ -1,12 +1,17 @@
-"""C07 - copying never disturbs the tree; extraction is faithful and loses nothing (bounded only)."""
+"""C07 - copying never disturbs the tree; extraction is faithful and loses nothing."""
+from contracts import k_order
 from pyvc import native
 
 
 def run(rep, tier, seed):
+    # structural frame obligation on the get handlers: with cut false nothing reachable from the source tree is written
+    k_order.c07_copy_frame(rep, 'C07')
     for norm, copts in ((False, {}), (True, {}), (False, {'docstr': 'strict'}), (False, {'docstr': False})):
         sec = native.run('b_edit', 'main', {'props': ['C07'], 'tier': tier, 'seed': seed, 'ops': ['copy'],
                                             'norm': norm, 'copy_opts': copts})
         sec['name'] += f'[norm={norm},{copts}]'
         sec['native_entry'] = ('b_edit', 'replay')
         rep.bounded(sec)
-    rep.remainder = 'everything: no deductive fragment for C07 (frame over a 10-deep call graph of handlers)'
+    rep.remainder = ('faithfulness of the extracted piece and token conservation: bounded only; the copy frame of the 11 get '
+                     'handlers that mutate the source temporarily and restore it (listed under copy_frame_not_registered), '
+                     'and of callees that do not take `cut`, is bounded only')
